@@ -25,6 +25,7 @@ type SmtLemma struct {
 	Also    []string // variables that move together with the induction variable
 	QPattern  []*sx_   // trigger of the partially instantiated (schematic) form; default: the lemma's pattern
 	Schematic []string // variables kept universally quantified in an additional, partially instantiated form
+	UsePred  bool    // write (- A 1) as B when A is defined as B + 1 (like the axioms)
 	Eager    bool    // definitional, non-recursive: instantiated at every new ground term in every variant
 	Monotone bool    // hyp(n) implies hyp(n-1): checked separately, lets the step use concl(n-1) directly
 }
@@ -69,6 +70,8 @@ func loadSmtLemmas(verifDir string) ([]*SmtLemma, error) {
 				lm.Axiom = true
 			case "monotone":
 				lm.Monotone = true
+			case "pred":
+				lm.UsePred = true
 			case "eager":
 				lm.Eager = true
 			case "qpattern":
@@ -579,7 +582,7 @@ func (p *Program) lemmaInstancesOnce(lines []string, goal string, skip map[strin
 						goto nextTuple
 					}
 					inst := "(assert (=> " + and(append(eqs, hyp.String())...) + " " + concl.String() + "))"
-					if pred != nil && lm.Axiom {
+					if pred != nil && (lm.Axiom || lm.UsePred) {
 						inst = pred.Replace(inst)
 					}
 					if litFalse(hyp) {
